@@ -53,6 +53,17 @@ def run(seed=0, n=120):
             assert _norm(cp.split(ss)) == rp.split(s), ('split', pat, s)
             assert _norm(cp.split(ss, 1)) == rp.split(s, 1), ('split1', pat, s)
             count += 6
+    # the str methods the symbolic string class re-implements, against str itself
+    for _ in range(n * 10):
+        t = ''.join(rng.choice(' \t\nab#"{') for _ in range(rng.randint(0, 8)))
+        ss = SStr(tuple(t))
+        for k in (-1, 0, 1, 2):
+            assert _norm(ss.split(None, k)) == t.split(None, k), ('str.split', t, k)
+            assert _norm(ss.split(' ', k)) == t.split(' ', k), ('str.split sep', t, k)
+        assert _norm(ss.strip()) == t.strip() and _norm(ss.rstrip()) == t.rstrip(), ('strip', t)
+        assert ss.find('#') == t.find('#') and ss.rfind('#') == t.rfind('#'), ('find', t)
+        assert _norm(ss.replace('a', 'xy')) == t.replace('a', 'xy'), ('replace', t)
+        count += 12
     return count
 
 
